@@ -71,6 +71,9 @@ HCOMMON_C := $(H)/vf_rt.c $(H)/ref.c $(H)/bind.c $(H)/vcase.c $(H)/oracle.c $(H)
 HCOMMON_O := $(patsubst $(H)/%.c,$(B)/h/%.o,$(HCOMMON_C))
 HBINS_SRC := $(wildcard $(H)/h_*.c)
 HBINS     := $(patsubst $(H)/h_%.c,$(B)/h_%,$(HBINS_SRC))
+ifneq ($(filter $(VARIANT),tsan mon),)
+  HBINS   := $(B)/h_thr
+endif
 HFLAGS    := -Wall -Wno-unused -Wno-unknown-pragmas
 ifeq ($(CC),$(GCC))
   HFLAGS += -fcx-limited-range
@@ -90,7 +93,7 @@ endif
 
 .PHONY: all bins lib clean variants
 all:
-	@for v in ref obl i64 asan; do $(MAKE) --no-print-directory VARIANT=$$v bins || exit 1; done
+	@for v in ref obl i64 asan tsan mon; do $(MAKE) --no-print-directory VARIANT=$$v bins || exit 1; done
 
 bins: $(LIBA) $(HBINS)
 lib: $(LIBA)
